@@ -24,6 +24,11 @@ def const_struct_field0(t):
 def run(ctx, rep):
     prog = ctx.program("default")
     rep.configs.append(getattr(ctx, "alias", "default"))
+    try:
+        pattern_dimensions(prog, rep)
+    except Exception as e:
+        import traceback; traceback.print_exc()
+        rep.fail("R20.6", "engine", "pattern dimension analysis crashed: %r" % (e,), status="undecided")
     impls = prog.impls_of_trait(CM)
     rep.floor("R20.1", "ColorMapping impls", len(impls), 12)
     for impl in sorted(impls, key=lambda i: ty_str(i["self_ty"])):
@@ -600,3 +605,65 @@ def check_writers(prog, rep):
             rep.check(not bad and (uses_draw_pixel or delegates), "R20.5", "DrawTarget::" + nm,
                       "MockDisplay::%s must change cells only through draw_pixel (which panics on out-of-bounds and repeated drawing when the checks are enabled); it %s" % (nm, "; ".join(bad) or "neither calls draw_pixel nor delegates to another drawing method"),
                       at=f.span, fn=f.path)
+
+
+def pattern_dimensions(prog, rep):
+    """R20.6 from_pattern accepts exactly the patterns that fit the display: every returning path has established
+    width <= SIZE and height <= SIZE (width = length of the first row or 0, height = number of rows) and no other
+    condition on the two — `Debug` prints SIZE-character rows, so a pattern of exactly SIZE columns or rows must be
+    accepted for the Debug -> from_pattern round trip.  (Row-length equality and the iteration over the rows are not
+    conditions on the dimensions.)"""
+    from mirq.paths import Paths, Unsupported, show_fact
+    from mirq.origin import subst
+    fs = [f for f in prog.fns.values() if f.body and f.name == "from_pattern" and f.kind == "assoc_fn" and "mock_display" in f.id]
+    if len(fs) != 1:
+        rep.fail("R20.6", "from_pattern", "anchor lost (%d)" % len(fs), status="undecided")
+        return
+    f = fs[0]
+    try:
+        summs = Paths(prog, inline=lambda g: prog.is_new(g), loops="once", limit=4000).of(f)
+    except Unsupported as e:
+        rep.fail("R20.6", "from_pattern", "cannot summarise: %s" % e, status="undecided", at=f.span, fn=f.path)
+        return
+    nocast = lambda t: subst(t, lambda n: n[1] if n[0] == "cast" else None)
+    pat = ("param", 1, "pattern")
+
+    def is_h(t):
+        t = strip_refs(nocast(t))
+        return (t[0] == "call" and t[1].endswith("<impl [T]>::len") and len(t[3]) == 1 and strip_refs(t[3][0]) == pat) or (t[0] == "un" and t[1] == "PtrMetadata" and strip_refs(t[2]) == pat)
+
+    def is_w(t):
+        t = strip_refs(nocast(t))
+        if t == ("const", 0):
+            return True
+        return t[0] == "call" and t[1].endswith("<impl str>::len") and len(t[3]) == 1 and strip_refs(t[3][0])[0] == "payload" and strip_refs(strip_refs(t[3][0])[1])[0] == "call" \
+            and strip_refs(strip_refs(t[3][0])[1])[1].endswith("::first") and strip_refs(strip_refs(strip_refs(t[3][0])[1])[3][0]) == pat
+
+    def mentions_dim(t):
+        return any(isinstance(n, tuple) and n and isinstance(n[0], str) and n[0] in ("call", "un") and (is_h(n) or (is_w(n) and n != ("const", 0))) for n in walk(t))
+    SIZE = 64
+    bad, n = [], 0
+    for sm in summs:
+        if sm.ret is None:
+            continue
+        n += 1
+        got_w = got_h = False
+        for fc in sm.facts:
+            if fc[0] == "variant":
+                continue
+            sides = [x for x in fc[1:] if isinstance(x, tuple) and x and isinstance(x[0], str)]
+            if not any(mentions_dim(x) or (x == ("const", 0) and fc[0] == "le") for x in sides):
+                continue
+            if fc[0] == "le" and strip_refs(nocast(fc[2])) == ("const", SIZE) and is_w(fc[1]):
+                got_w = True
+                continue
+            if fc[0] == "le" and strip_refs(nocast(fc[2])) == ("const", SIZE) and is_h(fc[1]):
+                got_h = True
+                continue
+            if fc[0] in ("eq", "ne") and any(is_w(x) for x in sides) and any(strip_refs(nocast(x))[0] == "call" and strip_refs(nocast(x))[1].endswith("<impl str>::len") and not is_w(x) for x in sides):
+                continue      # every row is as long as the first
+            bad.append("a returning path depends on %s" % show_fact(fc)[:160])
+        if not got_w or not got_h:
+            bad.append("a returning path has not established %s <= %d" % ("width" if not got_w else "height", SIZE))
+    rep.check(not bad and n >= 1, "R20.6", "from_pattern:dimensions", "from_pattern must accept exactly the patterns of at most SIZE x SIZE characters: %s" % ("; ".join(sorted(set(bad))[:2]) or "no returning path found"),
+              at=f.span, fn=f.path, detail={"returning_paths": n})
